@@ -80,7 +80,7 @@ def rand_v(rng, local_p=0.3):
     dev = rng.choice([None, None, small(rng)])
     loc = None
     if rng.random() < local_p:
-        loc = tuple(rng.choice(LOCAL_SEGS) for _ in range(rng.choice([1, 1, 2, 3])))
+        loc = tuple(rng.choice(LOCAL_SEGS) for _ in range(rng.choice([1, 1, 2, 3, 4, 5])))
         loc = tuple(int(x) if isinstance(x, str) and x.isdigit() else x for x in loc)
     return V(rng.choice([0, 0, 0, 1, 2]), rel, pre, post, dev, loc)
 
@@ -93,6 +93,8 @@ def neighbours(rng, v):
     out.append(replace(v, local=(rng.choice(LOCAL_SEGS),)))
     r = list(v.release); i = rng.randrange(len(r)); r[i] += 1
     out.append(replace(v, release=tuple(r)))
+    out.append(replace(v, release=tuple(r), pre=("a", 1), post=None, dev=None))      # a pre-release / dev release of a later release
+    out.append(replace(v, release=v.release[:-1] + (v.release[-1] + 1,), pre=None, post=None, dev=1))
     if r[i] > 1:
         r2 = list(v.release); r2[i] -= 1; out.append(replace(v, release=tuple(r2)))
     out.append(replace(v, release=v.release[:-1] or (0,)))
